@@ -27,6 +27,7 @@ import CaddyModel.C13.Caddyfile
 import CaddyModel.C13.UrlLemmas
 import CaddyModel.Gen.AdminGate
 import CaddyModel.Gen.Glue
+import CaddyModel.Gen.ConfigLocks
 
 namespace CaddyModel.C13
 
@@ -506,6 +507,35 @@ theorem remote_endpoint_serves_only_authorised (H : Bytes → Req → σ → σ)
         remote_served_only_if_authorised H mux _ idx fuel r s acl hr d (by rw [ht]; exact hd)
       rw [htls] at htls'; cases htls'
       exact hauth'
+
+/-- a route pattern of the two forms the executable mux model (`route`, `routeConnect`) covers:
+    "/exact" or "/subtree/" — it starts with a slash (no method or host qualifier) and has no
+    wildcard -/
+def simplePatternString (s : String) : Bool :=
+  s.toList.head? == some '/' && s.toList.all (fun c => c != ' ' && c != '{')
+
+/-- the pattern expression of an `addRoute…(pattern, label, handler)` call as the extractor prints it
+    (`pattern|handler|nesting`) -/
+def routePatternExpr (s : String) : List Char := s.toList.takeWhile (· != '|')
+
+/-- the built-in route table of the model, next to the expression admin.go registers it with -/
+def builtinPatSource : List (String × Bytes) :=
+  [("\"/\"+rawConfigKey+\"/\"", pConfig), ("\"/id/\"", pId), ("\"/stop\"", pStop), ("\"/debug/pprof/\"", pPprof),
+   ("\"/debug/pprof/cmdline\"", pCmdline), ("\"/debug/pprof/profile\"", pProfile),
+   ("\"/debug/pprof/symbol\"", pSymbol), ("\"/debug/pprof/trace\"", pTrace), ("\"/debug/vars\"", pVars)]
+
+/-- **the route table of the model is the route table of the source as it is now**
+    (`Gen/ConfigLocks.lean`, `Gen/AdminGate.lean`: regenerated from /repo on every run): `newAdminHandler`
+    registers exactly the nine built-in patterns of `builtinPats`, in this order, followed by the
+    module routes (`route.Pattern`); and every pattern any admin.api module of the tree registers
+    is of the two simple forms the executable mux model covers (which is why richer ServeMux
+    pattern syntax is not modelled; the theorems hold for every mux anyway). -/
+theorem admin_route_table_matches_source :
+    Gen.adminRoutes.map routePatternExpr = (builtinPatSource.map (·.1.toList)) ++ ["route.Pattern".toList] ∧
+    builtinPatSource.map (·.2) = builtinPats ∧
+    Gen.moduleAdminRoutePatterns.all (fun fp => simplePatternString fp.2) = true ∧
+    (Gen.moduleAdminRoutePatterns.map (·.2)).all (fun s => !builtinPats.contains (str s)) = true := by
+  decide
 
 /-- what the model of the remote endpoint takes for granted about `replaceRemoteAdminServer`:
     the TLS server requires AND verifies a client certificate (so `Req.tls` really is the list of
